@@ -28,7 +28,8 @@ WALL = {"quick": 1200, "thorough": 10800}
 MAX_TIMEOUTS = {"quick": 2, "thorough": 40}
 REQUIRED = {"geometric_checks": 300, "direction_checks": 150, "direction_checks_wrapped": 15, "distance_checks": 60,
             "cycle_checks": 40, "persistence_checks": 20, "sampled_distances": 20, "multi_restraint_runs": 10,
-            "regions_at_box_face": 15, "interleaved_molecule_names": 30}
+            "regions_at_box_face": 15, "interleaved_molecule_names": 30, "several_restraints_of_one_kind": 30,
+            "rings_started_inside": 15, "ring_bonds_listed_in_any_order": 20}
 TOP = """[ defaults ]
 1 2 no 1.0 1.0
 [ atomtypes ]
@@ -70,7 +71,7 @@ def setup():
 
 def plan(tier, seed):
     n = 780 if tier == "quick" else 6000
-    modes = ["geom", "geom", "geom_edge", "rw", "rw", "rw_small", "dist", "cycle", "cycle", "pers", "mix", "two_dist"]
+    modes = ["geom", "geom", "geom_edge", "rw", "rw", "rw_small", "dist", "cycle", "cycle", "pers", "mix", "two_dist", "shell"]
     return [[modes[i % len(modes)], i] for i in range(n)]
 
 
@@ -107,6 +108,9 @@ def run_case(cid, rng, workdir):
     bonds = ["%d %d 1 0.35 1000" % (k, k + 1) for k in range(1, nres)]
     if ring:
         bonds.append("%d %d 1 0.35 1000" % (nres, 1))
+        if rng.random() < 0.5:
+            rng.shuffle(bonds)          # the closing bond need not be the last one listed
+            bump(res, "ring_bonds_listed_in_any_order")
     mols = ["M %d" % nm]
     extra = ""
     # a second molecule type before M in some cases so that molecule indices do not start at 0
@@ -212,6 +216,26 @@ def run_case(cid, rng, workdir):
         kw["cycle_tol"] = rng.choice([0.0, 0.2, 0.5])
         restr.append(("cycle", kw["cycle_tol"]))
         bl = []
+        if rng.random() < 0.4:
+            # growth that starts somewhere inside the ring (-start with molecule name and index)
+            k0 = rng.randint(2, nres)
+            kw["start"] = ["M#%d-%s#%d" % (lead, names[k0 - 1], k0)]
+            bump(res, "rings_started_inside")
+    elif mode == "shell":
+        # several restraints of one kind on the same residues: a spherical shell (inside the large, outside the small
+        # sphere) or two forbidden spheres
+        c = np.array([round(x, 3) for x in box / 2])
+        if rng.random() < 0.6:
+            pairs = [("in", c, [round(rng.uniform(2.9, 3.2), 3)]), ("out", c, [round(rng.uniform(1.2, 2.0), 3)])]
+        else:
+            c2 = np.array([round(x, 3) for x in box / 2 + np.array([1.5, 0.0, 0.0])])
+            pairs = [("out", c, [round(rng.uniform(1.0, 1.4), 3)]), ("out", c2, [round(rng.uniform(1.0, 1.4), 3)])]
+        rng.shuffle(pairs)
+        for io, cc, pars in pairs:
+            for nm_ in ("RA", "RB"):
+                bl.extend(["[ sphere ]", "%s %d %d %s %.3f %.3f %.3f %.3f" % (nm_, 1, nres + 1, io, cc[0], cc[1], cc[2], pars[0])])
+                restr.append(("geom", "sphere", io, cc, pars, nm_, 1, nres + 1))
+        bump(res, "several_restraints_of_one_kind")
     elif mode == "pers":
         lp = rng.choice([0.3, 0.5, 1.0])      # stiffer chains are sampled near full extension, which the walk almost never reaches
         bl.extend(["[ persistence_length ]", "WCM %s %d %d" % (lp, 0, nres - 1)])
